@@ -318,7 +318,7 @@ def run(prog: Program, rep: Report, tier: str = "quick") -> None:
     game.add_instances(rep, game.c11_rank_job, [(i, tier) for i in range(n)], "R11.9", 16 * n)
     from . import c12
 
-    game.add_instances(rep, c12.closed_form_job, [(i, tier, "R11.10", ("predict_rank",)) for i in range(n)], "R11.10", 5 * n)
+    game.add_instances(rep, c12.closed_form_job, [(i, tier, "R11.10", ("predict_rank",)) for i in range(n)], "R11.10", 5 * n, counterpart_only=True)
     rep.arbitrate({"R11.6"}, "R11.10", "the rank probabilities are the closed form (averages of CDF values)")
     rep.arbitrate({"R11.1", "R11.2", "R11.3"}, "R11.8", "rank probabilities and draw probability share margin, scale and normaliser; one pair per team in input order")
     rep.arbitrate({"R11.4", "R11.7"}, "R11.9", "ranks are computed from the returned probabilities and agree with their order")
